@@ -1,17 +1,12 @@
 //go:build verif
 
-// RUN stage of C10 for codec "gomanifest" (sdk/go/manifest): parseManifestStream, firstBlock,
-// sendFileSegmentIterByName, Manifest.FileSegmentIterByName, segment(), Extract.
+// RUN stage of C10 for codec "gomanifest" (sdk/go/manifest), through its EXPORTED API only: Manifest.StreamIter
+// (+ exported fields of ManifestStream) for the file list and parse errors, Manifest.FileSegmentIterByName per
+// path, Manifest.Extract for (src, relocate) pairs and normalisation (Extract(".", ".")).
 //
-// Per scenario (abstract manifest, see vc10_common): render the text, then
-//   1. probe: every stream line is parsed with parseManifestStream (stopping at the first stream with an
-//      error, as segment() does) and, for every file token, the
-//      unexported sendFileSegmentIterByName is called IN THIS GOROUTINE under recover().  The exported
-//      iterators run it in a goroutine of their own, where a panic kills the process; the probe lets the
-//      known panic (KF-C10-1) be recorded cheaply.  A probe panic is {"ev":"load","kind":"panic"}.
-//   2. the real API: segment() (file list + per-file segments), Manifest.FileSegmentIterByName(path) per
-//      path, Extract(src, relocate) for the (src, relocate) pairs the scenario asks for.  A crash here
-//      is caught by the parent process (vC10RunIsolated).
+// The exported iterators run in goroutines of their own, where a panic of the codec kills the process: the
+// test re-executes itself as a child (vC10RunIsolated); the parent records {"ev":"load","kind":"panic"} for the
+// scenario in progress only if the child's stack trace shows the panic in a source file of the code under test.
 // Mutated scenarios (mut != ""): only Extract(".", ".") on the mutated text -> load ok/error.
 //
 // The driver decides nothing.
@@ -21,7 +16,6 @@ package manifest
 import (
 	"fmt"
 	"sort"
-	"strings"
 	"testing"
 )
 
@@ -33,33 +27,27 @@ func vC10ManSegs(w *vC10World, segs []FileSegment) [][]int {
 	return out
 }
 
-func vC10ManProbe(text string) (panicked string) {
-	defer func() {
-		if r := recover(); r != nil {
-			panicked = fmt.Sprint(r)
+// vC10ManLoad lists the files of a manifest through the exported API only: StreamIter and the exported
+// fields of ManifestStream (audit C10-4: nothing unexported is judged).
+func vC10ManLoad(m *Manifest) (paths []string, err error) {
+	seen := map[string]bool{}
+	for st := range m.StreamIter() {
+		if st.Err != nil && err == nil {
+			err = st.Err // (keep draining the channel: its goroutine would otherwise be left blocked)
 		}
-	}()
-	for _, line := range strings.Split(text, "\n") {
-		if line == "" {
+		if err != nil {
 			continue
 		}
-		st := parseManifestStream(line)
-		if st.Err != nil {
-			// segment() returns this error before it looks at any later stream
-			return ""
-		}
-		seen := map[string]bool{}
 		for _, ft := range st.FileStreamSegments {
 			p := st.StreamName + "/" + ft.Name
-			if seen[p] {
-				continue
+			if !seen[p] {
+				seen[p] = true
+				paths = append(paths, p)
 			}
-			seen[p] = true
-			ch := make(chan *FileSegment, 4096)
-			st.sendFileSegmentIterByName(p, ch)
 		}
 	}
-	return ""
+	sort.Strings(paths)
+	return
 }
 
 func vC10ManRun(s *vC10Scenario) (evs []vC10Ev) {
@@ -67,45 +55,30 @@ func vC10ManRun(s *vC10Scenario) (evs []vC10Ev) {
 	text := w.render(s.Streams, false)
 	if s.Mut != "" {
 		text = vC10Mutate(text, s.Streams, s.Mut, s.MutArg)
-		if p := vC10ManProbe(text); p != "" {
-			return append(evs, vC10Ev{"ev": "load", "kind": "panic", "detail": p, "paths": [][]int{}})
-		}
 		m := Manifest{Text: text}
 		ret := m.Extract(".", ".")
 		kind := "ok"
 		if ret.Err != nil {
 			kind = "error"
 		}
-		return append(evs, vC10Ev{"ev": "load", "kind": kind, "paths": [][]int{}})
-	}
-	if p := vC10ManProbe(text); p != "" {
-		return append(evs, vC10Ev{"ev": "load", "kind": "panic", "detail": p, "paths": [][]int{}})
+		return append(evs, vC10Ev{"ev": "load", "kind": kind, "paths": [][]int{}, "reads": []vC10Ev{}})
 	}
 	m := Manifest{Text: text}
-	sm, err := m.segment()
+	paths, err := vC10ManLoad(&m)
 	if err != nil {
-		return append(evs, vC10Ev{"ev": "load", "kind": "error", "detail": err.Error(), "paths": [][]int{}})
+		return append(evs, vC10Ev{"ev": "load", "kind": "error", "detail": err.Error(), "paths": [][]int{}, "reads": []vC10Ev{}})
 	}
-	paths := []string{}
-	for sn, st := range *sm {
-		for fn := range st {
-			paths = append(paths, sn+"/"+fn)
-		}
-	}
-	sort.Strings(paths)
 	lst := [][]int{}
 	for _, p := range paths {
 		lst = append(lst, vC10Bytes(p))
 	}
-	evs = append(evs, vC10Ev{"ev": "load", "kind": "ok", "paths": lst})
+	evs = append(evs, vC10Ev{"ev": "load", "kind": "ok", "paths": lst, "reads": []vC10Ev{}})
 	for _, p := range paths {
-		sn, fn := splitPath(p)
 		var got []FileSegment
 		for seg := range m.FileSegmentIterByName(p) {
 			got = append(got, *seg)
 		}
 		evs = append(evs, vC10Ev{"ev": "file", "path": vC10Bytes(p), "kind": "ok", "obs": []vC10Ev{
-			{"via": "segment", "start": 0, "n": -1, "segs": vC10ManSegs(w, (*sm)[sn][fn])},
 			{"via": "iter", "start": 0, "n": -1, "segs": vC10ManSegs(w, got)}}})
 	}
 	for _, x := range s.Extracts {
